@@ -222,14 +222,14 @@ func ident(s string) absArg { return absArg{text: s} }
 func programs() [][]absStmt {
 	assigns := []absStmt{
 		{kind: "assign", name: "VERSION", value: str("0.3.0")},
-		{kind: "assign", name: "émoji_ünï", value: str("héllo wörld /path/to.go *.x")},
+		{kind: "assign", name: "émoji_ünï", value: str("héllo wörld /path/to.go *.x C:\\dir\\n \\.go$ a=b")},
 		// (an assignment whose value is a bare identifier is outside C06's statement: "variables with
 		// string or builtin-call values"; `B := A` followed by another assignment does not parse)
 		{kind: "assign", name: "ROOT", fn: "join", fnArgs: []absArg{str("a"), ident("B"), str("c d")}},
 		{kind: "assign", name: "SHA", fn: "exec", fnArgs: []absArg{str("git rev-parse HEAD")}},
 		{kind: "assign", name: "E", fn: "join"},
 	}
-	comments := []absStmt{{kind: "comment", comment: "A comment: with, punctuation (and) \"quotes\" {braces}"}, {kind: "comment", comment: "ünï"}}
+	comments := []absStmt{{kind: "comment", comment: "A comment: with, punctuation (and) \"quotes\" {braces} ## \\n"}, {kind: "comment", comment: "ünï"}, {kind: "comment", comment: ""}}
 	tasks := []absStmt{
 		{kind: "task", name: "empty"},
 		{kind: "task", name: "test", comment: "Run the tests", deps: []absArg{str("**/*.go")}, commands: []string{"go test ./..."}},
@@ -307,7 +307,7 @@ func oracleC06(input string) string {
 
 // lineSequences: comments in every position.
 func lineSequences(maxLines int, f func(string)) {
-	pool := []string{"# c", "#", "#  ", "#d", "A := \"x\"", "B := A", "task a() {\n    b\n}", "task c() { d }", "", "task e(a) -> \"o\" {\n}"}
+	pool := []string{"# c", "#", "#  ", "## d #", "A := \"x\\y\"", "B := A", "task a() {\n    b\n}", "task c() { d }", "", "task e(a) -> \"o\" {\n}"}
 	var rec func(cur []string, n int)
 	rec = func(cur []string, n int) {
 		if len(cur) > 0 {
